@@ -22,6 +22,11 @@ def templates(tier, seed):
         for shape in ("frame_sets", "frame_nfc", "frame_nfc_mi", "frame_nested"):
             for rd in (("all",) if shape != "frame_sets" or tier == "quick" else ("all", "exclude_first", "exclude_last")):
                 ts.append(Template(f"{shape}/rd={rd}/coerce=0/N={N}", t_drop, (shape, N, dict(rd=rd, coerce=False))))
+    if tier != "quick":  # four rows: two violating rows around two conforming ones, duplicates that are not adjacent
+        for shape in ("series", "column", "frame", "frame_joint", "frame_wide", "frame_index", "frame_sets", "frame_nfc", "model"):
+            for rd in ("all", "exclude_first", "exclude_last") if shape in ("series", "frame_joint", "frame_sets") else ("all",):
+                for coerce in (False, True) if shape in ("series", "frame") and rd == "all" else (False,):
+                    ts.append(Template(f"{shape}/rd={rd}/coerce={int(coerce)}/N=4", t_drop, (shape, 4, dict(rd=rd, coerce=coerce))))
     if tier == "quick":  # two rows cannot be duplicated in one set and not in the other: the smallest revealing frame has three rows
         ts.append(Template("frame_sets/rd=exclude_first/coerce=0/N=3", t_drop, ("frame_sets", 3, dict(rd="exclude_first", coerce=False))))
     # violations that are not attributable to rows are still raised
